@@ -164,11 +164,22 @@ def gen_program(rnd):
             if seen_site:
                 n = rnd.choice([0, 1, 1, 2, 3, 64, rnd.randrange(0, 65), rnd.randrange(0, 65)])     # the smallest moves are the boundary
                 back = rnd.random() < 0.3
-                how = rnd.choice(["dot", "label", "latesym"])
+                how = rnd.choice(["dot", "label", "latesym", "repeat-align"])
                 pos = rnd.randrange(max(1, len(f.stmts) // 2), len(f.stmts) + 1)
                 # never before the site within this file
                 site_idx = max([i for i, s in enumerate(f.stmts) if s.k in ("link",) or (s.k == "dot" and getattr(s, "is_base", False))] + [-1])
                 pos = max(pos, site_idx + 1)
+                if how == "repeat-align":
+                    # the alignment idiom in every copy of a repeat body: each copy moves forward to ITS next multiple of m
+                    m = rnd.choice([4, 4, 8, 6])
+                    al = ("bin", "+", ("bin", "*", ("bin", "/", ("dot",), apm.num(m)), apm.num(m)), apm.num(m))
+                    bodyst = [apm.data(".byte", *[apm.num(rnd.randrange(256)) for _ in range(rnd.randrange(0, 3))]), apm.dotassign(al)]
+                    f.stmts.insert(pos, apm.repeat(apm.num(rnd.choice([2, 3, 4])), bodyst if rnd.random() < 0.7 else bodyst[1:]))
+                    f.stmts.insert(pos + 1, apm.label(f"afterskip{len(f.stmts)}"))
+                    f.stmts.insert(pos + 2, apm.data(".byte", apm.num(0o125)))
+                    f.stmts.insert(pos + 3, apm.simple(".even"))
+                    skip_tag = f"skip|fwd|repeat-align|{m}"
+                    break
                 if how == "dot":
                     e = ("bin", "-" if back else "+", ("dot",), apm.num(n, "d"))
                 elif how == "label":
